@@ -10,7 +10,7 @@ ALL_OPS = ["add_constraint", "add_constraints", "refine_with_constraint", "refin
            "remove_higher_space_dimensions", "map_space_dimensions", "expand_space_dimension", "concatenate_assign",
            "poly_difference_assign", "time_elapse_assign", "fold_space_dimensions", "generalized_affine_image_lhs",
            "simplify_using_context_assign", "poly_hull_assign_if_exact", "refine_with_congruence", "add_congruence",
-           "refine_with_congruences", "generalized_affine_preimage_lhs", "positive_time_elapse_assign"]
+           "refine_with_congruences", "generalized_affine_preimage_lhs", "positive_time_elapse_assign", "add_generators_from"]
 
 
 def owner(kind, line):
